@@ -3,7 +3,9 @@
     pad <block> <etm 0|1> <aead 0|1> <len>                 → <padding> <lengthfield>
     build <block> <addlen> <zeropad 0|1> <payloadhex> <rndhex>  → <packethex> | err:<kind>
     send <cfg> <z|-> <seq> <kexdone 0|1> <payloadhex> <rndhex>  → <wirehex> <seq'> | err:<kind>
-  (toy primitives; cfg tokens as in PV/Model/PacketIO.lean)
+    sendw <cfg> <z|-> <seq> <kexdone 0|1> <payloadhex> <rndhex> <wsched> → <hex accepted by the socket> ok|eof | err:<kind>
+    writeall <hex> <wsched>                                  → <hex accepted by the socket> ok|eof   (`write_all`)
+  (toy primitives; cfg tokens and wsched as in PV/Model/PacketIO.lean)
 -/
 import PV.Model.PacketIO
 open PV PV.Packet
@@ -33,6 +35,19 @@ def step (line : String) : String :=
       | .ok o => toHexTok o.wire ++ " " ++ toString o.st.seq
       | .error e => "err:" ++ errName e
     | _, _, _, _, _, _ => "bad-op"
+  | ["sendw", cfg, z, seq, kd, pl, rnd, ws] =>
+    match parseCfg cfg, parseZ z, seq.toNat?, bool? kd, ofHex? pl, ofHex? rnd, parseWSched ws with
+    | some c, some z, some seq, some kd, some pl, some rnd, some ws =>
+      let s : Sender toyPrims :=
+        { block := c.block, macLen := c.macLen, sdctr := c.sdctr, ciph := c.out, comp := z, seq := seq, kexDone := kd }
+      match sendMessage s pl rnd with
+      | .ok o => showW (writeAll ws o.wire 0 [])
+      | .error e => "err:" ++ errName e
+    | _, _, _, _, _, _, _ => "bad-op"
+  | ["writeall", out, ws] =>
+    match ofHex? out, parseWSched ws with
+    | some out, some ws => showW (writeAll ws out 0 [])
+    | _, _ => "bad-op"
   | _ => "bad-op"
 
 def main : IO Unit := lineLoop step
